@@ -317,7 +317,7 @@ class FormatModel:
 
 
 def number_cell(x, fmt):
-    cell = object.__new__(NumberCell)
+    cell = NumberCell.__new__(NumberCell)                    # Cacheable.__new__: real cells carry the memo store
     cell.row = 0
     cell.col = 0
     cell._table_id = 7
@@ -412,6 +412,70 @@ def h13_dispatch(n, ftype):
         assert out == "\u2605" * n
     else:
         assert CALLS13 == []
+
+
+class FormatTable:
+    """model side of Table.set_cell_formatting: format ids -> format archives"""
+
+    def __init__(self, fmts):
+        self.fmts = fmts
+
+    def table_format(self, table_id, key):
+        return self.fmts[key]
+
+
+def tag_decimal(value, fmt, percent=False):
+    return "D%d%s" % (fmt.tag, "%" if percent else "")
+
+
+def tag_currency(value, fmt):
+    return "C%d" % fmt.tag
+
+
+def tag_base(value, fmt):
+    return "B%d" % fmt.tag
+
+
+def tag_fraction(value, fmt):
+    return "F%d" % fmt.tag
+
+
+def tag_scientific(value, fmt):
+    return "S%d" % fmt.tag
+
+
+TAGS13 = {int(FormatType.DECIMAL): "D%d", int(FormatType.CURRENCY): "C%d", int(FormatType.PERCENT): "D%d%%",
+          int(FormatType.BASE): "B%d", int(FormatType.FRACTION): "F%d", int(FormatType.SCIENTIFIC): "S%d"}
+
+
+_NUMERIC_T = sorted(TAGS13)
+
+
+def no_log(*args, **kwargs):
+    return None
+
+
+def h13_reformat(n, t1, t2, t3, reads):
+    """one cell object, formatted, read, re-formatted (what Table.set_cell_formatting does to the cell) and read again:
+    every read shows the cell under the format it has at that moment"""
+    from numbers_parser.constants import FormattingType
+    assume(t1 in _NUMERIC_T and t2 in _NUMERIC_T and t3 in _NUMERIC_T)
+    fmts = {1: FormatRec(format_type=t1, tag=1), 2: FormatRec(format_type=t2, tag=2), 3: FormatRec(format_type=t3, tag=3)}
+    cell = number_cell(float(n), None)
+    cell._model = FormatTable(fmts)
+    cell._duration_format_id = cell._date_format_id = cell._text_format_id = None
+    cell._currency_format_id = cell._bool_format_id = None
+    cell._double = cell._seconds = None
+    cell._control_id = None
+    cell._is_currency = False
+    for k, t in ((1, t1), (2, t2), (3, t3)):
+        cell._set_formatting(k, FormattingType.NUMBER)
+        for _ in range(reads):
+            want = "?"
+            for code in _NUMERIC_T:
+                if t == code:
+                    want = TAGS13[code] % k
+            assert cell.formatted_value == want
 
 
 # ------------------------------------------------------------------------------------------------ number bases
@@ -714,6 +778,17 @@ HARNESSES.append(
                      (cellmod, "_format_base", rec_base), (cellmod, "_format_fraction", rec_fraction),
                      (cellmod, "_format_scientific", rec_scientific)]))
 
+HARNESSES.append(
+    Harness("H13-reformat", h13_reformat,
+            dict(n=IntDom(-(10 ** 9), 10 ** 9), t1=IntDom(), t2=IntDom(), t3=IntDom(),
+                 reads=Cases([1, 2])),
+            bounds="one cell, three successive number formats (every triple of the six numeric format types, symbolic), "
+                   "one or two reads of formatted_value after each re-formatting; value any integer up to 10^9 in magnitude",
+            stubs=["the formatters replaced by functions naming the format archive they were handed; model = dict of format ids; logging.debug = no-op"],
+            patches=[(cellmod, "_format_decimal", tag_decimal), (cellmod, "_format_currency", tag_currency),
+                     (cellmod, "_format_base", tag_base), (cellmod, "_format_fraction", tag_fraction),
+                     (cellmod, "_format_scientific", tag_scientific), (cellmod, "debug", no_log)]))
+
 
 def _sci(n, e):
     return Harness(f"H13-sci-n{n}-e{e}", h13_sci, lambda tier: dict(x=DecFloatDom(n, e), places=Cases([0, 1, 2, 5, 14] if tier == "quick" else list(range(0, 15)))),
@@ -731,8 +806,8 @@ HARNESSES += [_sci(n, e) for n, e in SCI_T]
 _NEW = ["H13-base", "H13-base-round", "H13-twos", "H13-fraction", "H13-fraction-n"]
 TIER_HARNESSES = {"quick": ["H13-decimal", "H13-currency"] + _NEW + [f"H13-sci-n{n}-e{e}" for n, e in SCI_Q] +
                            [f"H13-decimal-num-n{n}-e{e}" for n, e in DECNUM_Q] + [f"H13-percent-n{n}-e{e}" for n, e in PCT_Q] +
-                           ["H13-dispatch"],
+                           ["H13-dispatch", "H13-reformat"],
                   "thorough": ["H13-decimal", "H13-currency"] + _NEW + [f"H13-sci-n{n}-e{e}" for n, e in SCI_T] +
                               [f"H13-decimal-num-n{n}-e{e}" for n, e in DECNUM_T] + [f"H13-percent-n{n}-e{e}" for n, e in PCT_T] +
-                              ["H13-dispatch"]}
+                              ["H13-dispatch", "H13-reformat"]}
 PROPERTY = "C13"
